@@ -33,7 +33,9 @@ pub fn gen_case(seed: u64, hist: u64, plan: &str) -> SchedCase {
             reader_steps.push(i);
         }
     }
-    SchedCase { hist: h, sched, faults: vec![], reader_steps, gate_acks: r.chance(1, 2) }
+    // creating the next chunk file fails once in a fifth of the histories: the buffered records must stay readable
+    let faults = if r.chance(1, 5) { vec![sched::FaultSpec { role: crate::trace::Role::Caller, kind: crate::trace::Sk::Create, nth: r.range(1, 8) as u32, action: "eio".into() }] } else { vec![] };
+    SchedCase { hist: h, sched, faults, reader_steps, gate_acks: r.chance(1, 2) }
 }
 
 // ---------------------------------------------------------------------------------------
